@@ -202,10 +202,15 @@ def notify (st : State) (db : Nat) (k : Bytes) : State :=
   | some w => { st with waiting := st.waiting.filter (fun x => x.conn != w.conn),
                         wakes := st.wakes ++ [{ conn := w.conn, db := w.db, key := k, left := w.left }] }
 
+/-- one wake-up per pushed element while clients are waiting on the key (since 9571d7e; `notify` without a waiter does nothing) -/
+def notifyN : Nat → State → Nat → Bytes → State
+  | 0, st, _, _ => st
+  | n + 1, st, db, k => notifyN n (notify st db k) db k
+
 def doPush (q : Quirks) (st : State) (c now : Nat) (path : Path) (cmd : List Bytes) : State × Frame :=
   let r := access q st { db := (st.conns c).db, sel := (st.conns c).db, conn := c, path := path, now := now, cmd := cmd, obs := none }
   match r.2, cmd with
-  | .int n, _ :: k :: _ :: _ => if n > 0 then (notify r.1 (st.conns c).db k, r.2) else r
+  | .int n, _ :: k :: v :: vs => if n > 0 then (notifyN (v :: vs).length r.1 (st.conns c).db k, r.2) else r
   | _, _ => r
 
 /-- `process_wakeups`/`wake_client`: pop on the database carried by the request; a value is delivered to the blocked client -/
